@@ -85,4 +85,14 @@ def proof_stage(chk):
 def _theorems():
     import re
     src = open(os.path.join(vlib.COQ, PROOF_FILE)).read()
-    return re.findall(r"^\s*(?:Theorem|Example)\s+(\w+)", src, flags=re.M)
+    out, mod = [], ""
+    for line in src.splitlines():
+        m = re.match(r"\s*Module\s+(\w+)\s*\.", line)
+        if m:
+            mod = m.group(1) + "."
+        elif re.match(r"\s*End\s+\w+\s*\.", line):
+            mod = ""
+        m = re.match(r"\s*(?:Theorem|Example)\s+(\w+)", line)
+        if m:
+            out.append(mod + m.group(1))
+    return out
